@@ -1,0 +1,15 @@
+//go:build verif
+
+package webp
+
+import "github.com/deepteams/webp/internal/lossy"
+
+// Add-only re-exports for /verif (properties C04, C06).
+
+type VerifFrameInfo = lossy.VerifFrameInfo
+
+func VerifLossyDecodeFrame(data []byte, unfiltered bool) (w, h int, y, u, v []byte, err error) {
+	return lossy.VerifDecodeFrame(data, unfiltered)
+}
+
+func VerifLossyParseHeaders(data []byte) (VerifFrameInfo, error) { return lossy.VerifParseHeaders(data) }
